@@ -156,6 +156,7 @@ class SimWorld(object):
         self.replies = []          # (t, cid, payload)
         self.events = []           # (t, topic, body dict)
         self.raw_events = []
+        self.event_nsig = []
         self.requests = []
         self.loop_errors = []
         self.dead = False
@@ -286,6 +287,7 @@ class SimWorld(object):
         except Exception:
             topic, body = repr(frames[0]), None
         self.events.append((t, topic, body))
+        self.event_nsig.append(len(self.kernel.signal_log))
 
     # -- running -----------------------------------------------------------
     def _step(self):
